@@ -319,6 +319,8 @@ func (c *Client) flush(ctx context.Context) error {
 	}
 	n, err := c.writer.Flush()
 	if err != nil {
+		// Packet can be written partially, connection can't be reused.
+		_ = c.Close()
 		return err
 	}
 	if ce := c.lg.Check(zap.DebugLevel, "Flush"); ce != nil {
